@@ -828,11 +828,134 @@ class Interp:
                 if d == 1:
                     return ok(fr._project(a0, [["d", 1, "Some"], ["f", 0, None, "?"]]))
                 return err(args[1])
-        if n == "core::option::Option::map" or n == "core::result::Result::map_err":
+        # ---- Option / Result combinators (fork on the discriminant, run closures)
+        short = n.rsplit("::", 2)[-2:] if n.count("::") >= 2 else [n]
+        if n.startswith("core::option::Option::") and isinstance(a0, (Sym, Agg)):
+            m = n.rsplit("::", 1)[1]
+            if m in ("unwrap_or_default", "unwrap_or", "unwrap_or_else", "map_or", "map_or_else", "map",
+                     "and_then", "is_some_and", "is_none_or", "filter", "ok_or_else", "or", "xor", "zip"):
+                if m in ("or", "xor", "zip"):
+                    return NotImplemented
+                is_some = self.option_is_some(a0)
+                pay = self.option_payload(a0, fr) if is_some else None
+                if m == "unwrap_or_default":
+                    return pay if is_some else self.default_value(t, fr)
+                if m == "unwrap_or":
+                    return pay if is_some else args[1]
+                if m == "unwrap_or_else":
+                    return pay if is_some else self.call_closure(args[1], [], fr, t)
+                if m == "map_or":
+                    return self.call_closure(args[2], [pay], fr, t) if is_some else args[1]
+                if m == "map_or_else":
+                    return self.call_closure(args[2], [pay], fr, t) if is_some else \
+                        self.call_closure(args[1], [], fr, t)
+                if m == "map":
+                    return some(self.call_closure(args[1], [pay], fr, t)) if is_some else NONE
+                if m == "and_then":
+                    return self.call_closure(args[1], [pay], fr, t) if is_some else NONE
+                if m == "is_some_and":
+                    return self.call_closure(args[1], [pay], fr, t) if is_some else boolv(False)
+                if m == "is_none_or":
+                    return self.call_closure(args[1], [pay], fr, t) if is_some else boolv(True)
+                if m == "ok_or_else":
+                    return ok(pay) if is_some else err(self.call_closure(args[1], [], fr, t))
+                if m == "filter":
+                    if not is_some:
+                        return NONE
+                    keep = self.deref(self.call_closure(args[1], [pay], fr, t))
+                    if isinstance(keep, Const):
+                        return a0 if keep.v else NONE
+                    k = self.dec.ask("switch(%s)" % keep.expr(), [0, 1])
+                    return a0 if k else NONE
+        if n.startswith("core::result::Result::") and isinstance(a0, (Sym, Agg)):
+            m = n.rsplit("::", 1)[1]
+            if m in ("map_err", "map", "and_then", "unwrap_or", "unwrap_or_default", "ok", "err", "unwrap_or_else"):
+                is_ok = self.result_is_ok(a0)
+                pay = self.result_payload(a0, fr, is_ok)
+                if m == "map_err":
+                    return ok(pay) if is_ok else err(self.call_closure(args[1], [pay], fr, t))
+                if m == "map":
+                    return ok(self.call_closure(args[1], [pay], fr, t)) if is_ok else err(pay)
+                if m == "and_then":
+                    return self.call_closure(args[1], [pay], fr, t) if is_ok else err(pay)
+                if m == "unwrap_or":
+                    return pay if is_ok else args[1]
+                if m == "unwrap_or_default":
+                    return pay if is_ok else self.default_value(t, fr)
+                if m == "unwrap_or_else":
+                    return pay if is_ok else self.call_closure(args[1], [pay], fr, t)
+                if m == "ok":
+                    return some(pay) if is_ok else NONE
+                if m == "err":
+                    return NONE if is_ok else some(pay)
+        if n == "core::default::Default::default" and not args:
+            d = self.default_value(t, fr, opaque_ok=False)
+            if d is not None:
+                return d
             return NotImplemented
         if n == "core::default::Default::default" and not args:
             return NotImplemented
         return NotImplemented
+
+    # ---- helpers for the combinator models
+    def option_is_some(self, a0):
+        if isinstance(a0, Agg):
+            return a0.vidx == 1
+        return self.dec.ask("switch(discr(%s))" % a0.e, [0, 1]) == 1
+
+    def option_payload(self, a0, fr):
+        if isinstance(a0, Agg):
+            return a0.elems[0]
+        return fr._project(a0, [["d", 1, "Some"], ["f", 0, None, "?"]])
+
+    def result_is_ok(self, a0):
+        if isinstance(a0, Agg):
+            return a0.vidx == 0
+        return self.dec.ask("switch(discr(%s))" % a0.e, [0, 1]) == 0
+
+    def result_payload(self, a0, fr, is_ok):
+        if isinstance(a0, Agg):
+            return a0.elems[0]
+        return fr._project(a0, [["d", 0 if is_ok else 1, "Ok" if is_ok else "Err"], ["f", 0, None, "?"]])
+
+    def default_value(self, t, fr, opaque_ok=True):
+        d = Place(t["dest"])
+        ty = strip_generics(fr.body.locals[d.local]["ty"]) if not d.proj else None
+        if ty in ("u8", "u16", "u32", "u64", "u128", "usize", "i8", "i16", "i32", "i64", "i128", "isize"):
+            return Const(0, ty)
+        if ty == "bool":
+            return boolv(False)
+        if ty and ty.startswith("core::option::Option"):
+            return NONE
+        if opaque_ok:
+            return Sym("Default::default()", ty=ty)
+        return None
+
+    def call_closure(self, f, args, fr, t):
+        fv = self.deref(f)
+        if isinstance(fv, Agg) and fv.adt.startswith("closure:") and fr.depth < 5:
+            path = fv.adt[len("closure:"):]
+            body = self.prog.body(path)
+            if body is not None:
+                kind, val, _ = self.run(body, [fv] + list(args), fr.depth + 1)
+                if kind == "diverge":
+                    raise _Diverge()
+                return val
+        if isinstance(fv, Const) and isinstance(fv.v, str) and fv.v.startswith("fn:"):
+            path = fv.v[3:]
+            if path == "core::option::Option::Some":
+                return some(args[0])
+            if path == "core::result::Result::Ok":
+                return ok(args[0])
+            if path == "core::result::Result::Err":
+                return err(args[0])
+            if path in self.cfg.get("inline", ()) and fr.depth < 5:
+                body = self.prog.body(path)
+                if body is not None:
+                    kind, val, _ = self.run(body, list(args), fr.depth + 1)
+                    return val
+            return Sym(self.fresh("%s(%s)" % (path, ", ".join(self.deref(a).expr() for a in args))))
+        return Sym(self.fresh("call(%s; %s)" % (fv.expr(), ", ".join(self.deref(a).expr() for a in args))))
 
     def snapshot(self, v):
         """by-value copy (Clone): aggregates are copied, symbols keep identity of name"""
